@@ -1,5 +1,125 @@
-(* C06 — placeholder statements; the serialisation theorems are in BT/ConcProofs.v (to come) *)
+(* C06 — Bigtable: single-row writes are all-or-nothing and linearizable.
+   Only statements here; the interleaving model is BT/Conc.v (one scheduler step = the run of a
+   request up to its next instrumented yield point), proofs are in BT/ConcProofs.v.
+   All theorems hold for EVERY schedule and any number of threads. *)
 From Coq Require Import List NArith ZArith Bool.
-From Emu.BT Require Import Types Server Conc.
-Example C06_model_runs : snd (cstep (mkCState nil None nil) 0) = OIdle.
-Proof. reflexivity. Qed.
+Import ListNotations.
+From Emu.Common Require Import Bytes Str StrProofs.
+From Emu.BT Require Import Types Mutate Server Conc ConcProofs.
+Local Open Scope Z_scope.
+
+(* ---- the lock structure ---- *)
+
+(* in every reachable state the holder is exactly the thread parked inside its write section,
+   and every thread's progress fits the request it is running *)
+Theorem C06_conc_inv : forall s0 progs sched,
+  let st := fst (crun (init_cstate s0 progs) sched) in
+  (forall i, cs_holder st = Some i <-> at_mid st i) /\ Forall thread_wf (cs_threads st).
+Proof. exact conc_inv_reachable. Qed.
+Print Assumptions C06_conc_inv.
+
+(* at most one thread is inside a write section *)
+Theorem C06_mid_unique : forall st i j, conc_inv st -> at_mid st i -> at_mid st j -> i = j.
+Proof. exact mid_unique. Qed.
+Print Assumptions C06_mid_unique.
+
+(* a blocked step: the thread needs the lock, ANOTHER thread holds it (parked inside its write
+   section), and nothing changes *)
+Theorem C06_blocked_spec : forall st i, snd (cstep st i) = OBlocked ->
+  fst (cstep st i) = st
+  /\ exists c rest p j, thread_at st i c rest p /\ needs_lock (cl_req c) p = true
+                        /\ cs_holder st = Some j /\ j <> i /\ (conc_inv st -> at_mid st j).
+Proof. exact blocked_spec. Qed.
+Print Assumptions C06_blocked_spec.
+
+Theorem C06_free_not_blocked : forall st i, cs_holder st = None -> snd (cstep st i) <> OBlocked.
+Proof. exact free_not_blocked. Qed.
+Print Assumptions C06_free_not_blocked.
+
+Theorem C06_idle_spec : forall st i, snd (cstep st i) = OIdle -> fst (cstep st i) = st.
+Proof. exact idle_spec. Qed.
+Print Assumptions C06_idle_spec.
+
+(* a step of thread i never changes another thread's record *)
+Theorem C06_cstep_frame : forall st i j, j <> i ->
+  nth_error (cs_threads (fst (cstep st i))) j = nth_error (cs_threads st) j.
+Proof. exact cstep_frame. Qed.
+Print Assumptions C06_cstep_frame.
+
+(* the complete case analysis of one scheduler step *)
+Theorem C06_cstep_spec : forall st i, cstep_spec st i (fst (cstep st i)) (snd (cstep st i)).
+Proof. exact cstep_spec_holds. Qed.
+Print Assumptions C06_cstep_spec.
+
+(* ---- (a) serialisability ---- *)
+
+(* every step is a serial effect: nothing, the whole committing request ([step]), or one GC batch *)
+Theorem C06_crun_is_serial_effects : forall sched st,
+  cs_server (fst (crun st sched)) = fold_left apply_effect (effects st sched) (cs_server st).
+Proof. exact crun_is_serial_effects. Qed.
+Print Assumptions C06_crun_is_serial_effects.
+
+(* the linearisation log [lin_log]: one entry per request, made at the step that fixes its effect
+   and its answer (a writer: the step leaving the write section = its ODone step; a read: the step
+   ending its last section, one r.send yield before its ODone).  For programs without GC
+   requests, EVERY schedule is explained by the serial run of the log: same final server; same
+   response for every entry (but reads that handed over in the middle: ev_exact = false); per
+   thread, the log holds the thread's requests in program order, with the answers it received
+   (the last one possibly still owed: [pending]) *)
+Theorem C06_conc_serializable : forall s0 progs sched, no_gc_progs progs ->
+  let st0 := init_cstate s0 progs in
+  let L := lin_log st0 sched in
+  fst (run s0 (map ev_call L)) = cs_server (fst (crun st0 sched))
+  /\ Forall2 (fun e r => ev_exact e = true -> ev_resp e = r) L (snd (run s0 (map ev_call L)))
+  /\ forall j,
+       map ev_resp (lin_of j L) = done_of j sched (snd (crun st0 sched)) ++ pending (fst (crun st0 sched)) j
+       /\ map ev_tag (lin_of j L) ++ tag (unlin (fst (crun st0 sched)) j) = tag (nth j progs []).
+Proof. exact conc_serializable. Qed.
+Print Assumptions C06_conc_serializable.
+
+(* writes and admin requests only: the log IS the list of calls in the order of their ODone steps *)
+Theorem C06_conc_serializable_writes : forall s0 progs sched,
+  no_gc_progs progs -> no_req_progs is_read progs ->
+  let st0 := init_cstate s0 progs in
+  let D := done_log st0 sched in
+  run s0 (map ev_call D) = (cs_server (fst (crun st0 sched)), map ev_resp D).
+Proof. exact conc_serializable_writes. Qed.
+Print Assumptions C06_conc_serializable_writes.
+
+(* commit order = lock-acquisition order *)
+Theorem C06_commit_order_is_lock_order : forall s0 progs sched,
+  acq_log (init_cstate s0 progs) sched
+  = commit_log (init_cstate s0 progs) sched ++ opt_list (cs_holder (fst (crun (init_cstate s0 progs) sched))).
+Proof. exact commit_order_is_lock_order_init. Qed.
+Print Assumptions C06_commit_order_is_lock_order.
+
+(* ---- non-vacuity ---- *)
+Definition C06_tbl : bytes := [112; 47; 116; 97; 98; 108; 101; 115; 47; 116]%N.   (* "p/tables/t" *)
+Definition C06_s0 : server :=
+  fst (run [] [mkCall (BCreateTable [112%N] [116%N] [([102%N], None)]) 0 []]).
+Definition C06_w (v : N) : call := mkCall (BMutateRow C06_tbl [114%N] [SetCell [102%N] [113%N] 1000 [v]]) 0 [].
+Definition C06_r : call := mkCall (BReadRows C06_tbl [] [] None 0) 0 [].
+
+(* two writers on the same row: the second is blocked while the first is parked inside its
+   section; both commit; the log is in commit order *)
+Example C06_two_writers :
+  let st0 := init_cstate C06_s0 [[C06_w 1]; [C06_w 2]] in
+  let sched := [0; 0; 1; 1; 0; 0; 1; 1]%nat in
+  snd (crun st0 sched) = [OAt; OAt; OAt; OBlocked; ODone (ok YNone); OIdle; OAt; ODone (ok YNone)]
+  /\ map ev_call (lin_log st0 sched) = [C06_w 1; C06_w 2]
+  /\ done_log st0 sched = lin_log st0 sched
+  /\ acq_log st0 sched = [0; 1]%nat /\ commit_log st0 sched = [0; 1]%nat
+  /\ cs_server (fst (crun st0 sched)) = fst (run C06_s0 [C06_w 1; C06_w 2]).
+Proof. vm_compute. repeat split. Qed.
+
+(* a read linearises BEFORE it answers: in ODone order the schedule below would read [write; read]
+   although the read does not see the write — the log has [read; write] *)
+Example C06_read_linearises_at_its_section :
+  let st0 := init_cstate (fst (run C06_s0 [C06_w 1])) [[C06_r]; [C06_w 2]] in
+  let sched := [0; 0; 1; 1; 1; 0]%nat in
+  map is_done (snd (crun st0 sched)) = [false; false; false; false; true; true]
+  /\ map ev_call (lin_log st0 sched) = [C06_r; C06_w 2]
+  /\ map ev_call (done_log st0 sched) = [C06_w 2; C06_r]
+  /\ map ev_resp (lin_log st0 sched) = snd (run (fst (run C06_s0 [C06_w 1])) [C06_r; C06_w 2])
+  /\ map ev_resp (done_log st0 sched) <> snd (run (fst (run C06_s0 [C06_w 1])) [C06_w 2; C06_r]).
+Proof. vm_compute. repeat split. discriminate. Qed.
